@@ -62,6 +62,17 @@ def run_case(case):
         if d:
             res["failures"].append(_fail(label, term, o, d))
         return res
+    if case[0] == "seq":
+        # one long-lived (memo-free) object evaluated under a sequence of dictionaries; the last one is judged
+        _, label, term, seq = case
+        w, obj = make(term, "nocache")
+        for o in seq:
+            impl = observe(w, lambda: obj.evaluate(o))
+            res["evaluations"] += 1
+        d = same_outcome(impl, Ref().run(term, seq[-1]))
+        if d:
+            res["failures"].append(_fail(label, term, seq[-1], d, seq))
+        return res
     _, depth, ctxs, a, b = case
     import itertools
 
@@ -72,7 +83,10 @@ def run_case(case):
         seen = set()
         bad = False
         dicts = cat.dictionaries(spec)
-        for o in dicts:
+        # the object is long-lived: it is evaluated under every dictionary in turn and (depth <= 1) once more in
+        # the opposite order, so an expression that remembers anything between evaluations is observed
+        order = list(dicts) + (list(reversed(dicts)) if depth <= 1 else [])
+        for oi, o in enumerate(order):
             w.reset_log()
             impl = observe(w, lambda: obj.evaluate(o))
             ref = r.run(term, o)
@@ -81,7 +95,10 @@ def run_case(case):
             d = same_outcome(impl, ref)
             if d and not bad:
                 bad = True
-                res["failures"].append(_fail(label, term, o, d))
+                if check_one(label, term, o)[2]:
+                    res["failures"].append(_fail(label, term, o, d))
+                else:  # only reproducible after the evaluations that came before
+                    res["failures"].append(_fail(label, term, o, d, order[: oi + 1]))
         res["terms"] += 1
         res["outcomes"] += len(seen)
         if len(seen) > 1:
@@ -91,12 +108,12 @@ def run_case(case):
     return res
 
 
-def _fail(label, term, o, d):
+def _fail(label, term, o, d, seq=None):
     return {
-        "sig": f"C05|{label}|{o!r}",
-        "what": f"evaluate differs from the eager reference for {label} under {o!r}",
+        "sig": f"C05|{label}|{o!r}" + ("|after-earlier-evaluations" if seq else ""),
+        "what": f"evaluate differs from the eager reference for {label} under {o!r}" + (f" after {len(seq) - 1} earlier evaluations of the same object" if seq else ""),
         "detail": d + " term=" + short(term, 600),
-        "case": ("one", label, term, o),
+        "case": ("seq", label, term, list(seq)) if seq else ("one", label, term, o),
     }
 
 
